@@ -106,7 +106,10 @@ func rankCompletionItemsByScore(scored []scoredItem, counts map[string]int, quer
 			countI = counts[scored[i].item.Label]
 			countJ = counts[scored[j].item.Label]
 		}
-		return countI > countJ
+		if countI != countJ {
+			return countI > countJ
+		}
+		return scored[i].item.Label < scored[j].item.Label
 	})
 
 	items := make([]protocol.CompletionItem, len(scored))
